@@ -1336,17 +1336,31 @@ def sample_bind_terms(ctx, rule="OWN-sample-bind"):
         ctx.ok(rule, "sample_p/adev_sample_p", "no direct bind site outside create_sample_primitive")
 
 
+def apply_rule_value(ctx, ev, cls_dotted, f, args, kwargs):
+    """Apply the callable a factory method returned - a local closure, or a bound method of the same object (self._rule) - to argument
+    terms; None if it is neither."""
+    if f[0] == "closure":
+        return ev.apply_closure(f, args, kwargs)
+    if f[0] == "attr" and f[1] == SELF:
+        look = ctx.p.lookup(cls_dotted + "." + f[2])
+        if look is not None and look[0] == "method":
+            sm = ev.eval_funcnode(look[1], look[2], cls_dotted + "." + f[2], cls=look[3].name if look[3] is not None else None, args=(SELF,) + tuple(args), kwargs=tuple(kwargs))
+            ev.last_closure_summary = sm
+            return sm.ret
+    return None
+
+
 def vmap_context_guard_terms(ctx, rule="GUARD-plain-vmap"):
     ev = mk_ev(ctx)
     dotted = PJ + "VmapBatchHandler.create_batch_rule"
     s = summarize(ctx, ev, dotted)
     loc = func_loc(ctx, dotted)
     construct = "pjax.VmapBatchHandler.batch_rule"
-    if s.ret[0] != "closure":
+    VA, BA, PR = ("param", "va_"), ("param", "ba_"), ("param", "params_")
+    r = apply_rule_value(ctx, ev, PJ + "VmapBatchHandler", s.ret, (VA, BA), ((None, PR),))
+    if r is None:
         ctx.bad(rule, construct, "returns the batch rule", f"found {short(s.ret, ev)}", loc)
         return
-    VA, BA, PR = ("param", "va_"), ("param", "ba_"), ("param", "params_")
-    r = ev.apply_closure(s.ret, (VA, BA), ((None, PR),))
     from .c16 import bool_eval, bool_atoms, resolve_all
     import itertools
     atoms = []
@@ -1381,6 +1395,9 @@ def vmap_context_guard_terms(ctx, rule="GUARD-plain-vmap"):
         ctx.ok(rule, construct, "raises on every path where ctx != 'modular_vmap'")
 
 
+_CTX = []
+
+
 def _logdensity_case(ev, outs, vm, batch_tree, in_tree, impl):
     problems = []
     if not vm:
@@ -1390,9 +1407,9 @@ def _logdensity_case(ev, outs, vm, batch_tree, in_tree, impl):
             problems.append(f"jax.vmap(density, in_axes = tree rebuilt from batch_axes[num_consts:]) (found in_axes={short(ev.kwget(v[3], 'in_axes') or NONE, ev, 120)})")
         f = v[2][0] if v[2] else NONE
         if f != impl:
-            if f[0] == "closure":
+            if f[0] == "closure" or (f[0] == "attr" and f[1] == SELF):
                 A_, K_ = ("param", "aa_"), ("param", "kk_")
-                b = ev.apply_closure(f, (A_, K_), ())
+                b = apply_rule_value(_CTX[0], ev, PJ + "LogDensityVmapHandler", f, (A_, K_), ()) if _CTX else ev.apply_closure(f, (A_, K_), ())
                 if b != ("call", impl, (("star", A_),), ((None, K_),)):
                     problems.append(f"the site's own density is vmapped (found {short(b, ev, 120)})")
             else:
@@ -1417,11 +1434,12 @@ def logdensity_batch_terms(ctx, rule="ROLE-logdensity-batch"):
     s = summarize(ctx, ev, dotted)
     loc = func_loc(ctx, dotted)
     construct = "pjax.LogDensityVmapHandler.batch_rule"
-    if s.ret[0] != "closure":
+    _CTX[:] = [ctx]
+    VA, BA, PR = ("param", "va_"), ("param", "ba_"), ("param", "params_")
+    r = apply_rule_value(ctx, ev, PJ + "LogDensityVmapHandler", s.ret, (VA, BA), ((None, PR),))
+    if r is None:
         ctx.bad(rule, construct, "returns the batch rule", f"found {short(s.ret, ev)}", loc)
         return
-    VA, BA, PR = ("param", "va_"), ("param", "ba_"), ("param", "params_")
-    r = ev.apply_closure(s.ret, (VA, BA), ((None, PR),))
     nc = ("idx", PR, C("num_consts"))
     tree = lambda seq: call(N("jax.tree_util.tree_unflatten"), ("idx", PR, C("in_tree")), ("idx", seq, ("slice", nc, NONE, NONE)))
     in_tree, batch_tree = tree(VA), tree(BA)
